@@ -3,6 +3,7 @@
    where the code calls random.expovariate).  Statements only; proofs in
    Proofs/EventSISP4.v.  Imported by Props/C02.v. *)
 From EoNV Require Import Prelude Samp Graph EventSIS EventSISP EventSISP4.
+From EoNV Require EventSISTrace EventSISRel EventSISFast EventSISClock EventSISEx.
 
 (* [log_ok g elog tlog] (Model/EventSIS.v, executable): replaying the status
    changes oldest first from "all susceptible", every infection has its entry in
@@ -40,17 +41,10 @@ Theorem fsis_loop_invariant :
 Proof. exact m_loop_inv. Qed.
 Print Assumptions fsis_loop_invariant.
 
-(* Full statement of the clock structure (DESIGN C02): every queued attempt
-   time of a pair (u,v) is start + Expo(tau*w_uv) where start is u's infection
-   time, the previous attempt of the same pair, or rec_time[v] < rec_time[u].
-   PROVED here, over the trace of [exec]: every call the program makes to the
-   random source is expovariate(gamma*w_v) for a node v or expovariate(tau*w_uv)
-   for an EDGE (u,v) (plus the initial random.sample over all nodes), on every
-   script; that each attempt time is [tadd start d] for the draw d of such a call
-   with start one of the three values is the text of [find_next]
-   (Model/EventSIS.v) and is checked on every run by the trace oracle
-   harness/esis_lib.oracle_clock; it is not restated as a theorem. *)
-Theorem fsis_clock_structure_partial :
+(* Rates, on EVERY outcome of [exec] (also runs that end in OutOfDraws / OutOfFuel): every
+   call the program makes to the random source is expovariate(gamma*w_v) for a node v or
+   expovariate(tau*w_uv) for an EDGE (u,v) (plus the initial random.sample over all nodes). *)
+Theorem fsis_calls_are_generator_rates :
   forall g tau gamma tmax i0 rho tmin full fuel ds out tr,
     exec (fast_SIS g tau gamma tmax i0 rho tmin full fuel) ds [] = (out, tr) ->
     Forall (gen_call g tau gamma) tr.
@@ -58,14 +52,94 @@ Proof.
   intros g tau gamma tmax i0 rho tmin full fuel ds out tr H.
   exact (proj1 (fsis_valid_path_and_rates g tau gamma tmax i0 rho tmin full fuel ds out tr H)).
 Qed.
-Print Assumptions fsis_clock_structure_partial.
+Print Assumptions fsis_calls_are_generator_rates.
+
+(* The clock structure (DESIGN C02), for every finished run started from explicit, distinct
+   initial nodes (Proofs/EventSISRel.v, EventSISClock.v).  Each call of expovariate is
+   annotated by a record [clk]:
+     KRec v s d         duration of the infection of v that starts at s; rec_time[v] = s + d
+     KAtt u v k s d rd  next attempt of the ordered pair (u,v) in u's k-th infectious period,
+                        counted from s: attempt time s + d; rd = true for the redraw.
+   There is a list [cs] of records such that
+   (1) the trace IS the list of their calls — rate gamma*w_v resp. tau*w_uv — and the value
+       each call returned is the script's draw at the same position;
+   (2) [clock_ok]: every attempt record is for an EDGE, and its start time is u's infection
+       time (an infection event of u in the returned log), or the attempt time s' + d' of an
+       EARLIER record of the same pair, or — the single redraw — rec_time[v] = s_v + d_v for a
+       duration record of v, in which case the record just before it is the discarded attempt
+       s' + d' of the same pair and s_v <= s' + d' < rec_time[v]: the skipped interval lies
+       inside v's infectious period, and rec_time[v] < rec_time[u] (= s_u + d_u of a duration
+       record of u, or u never recovers: gamma*w_u = 0); every duration record starts at an
+       infection event;
+   (3) at every head of the event loop ([ml_via CI]): every queued attempt time is s + d of a
+       record, and NO CLOCK IS MISSING: while u is infectious, every neighbour v with a positive
+       rate has a pending attempt in the queue ([Pend]), or the last clock of the pair in this
+       period rang at or after rec_time[u] or tmax ([Dead]), or rec_time[u] <= rec_time[v]
+       ([Blocked]: v stays infectious until u recovers; for a susceptible v this means that
+       u's recovery is due at this very instant, [fsis_enabled_pair_has_a_clock]). *)
+Theorem fsis_clock_structure :
+  forall g, NoDup (gnodes g) -> (forall u v, In v (gadj g u) -> In v (gnodes g)) ->
+  forall tau gamma tmax tmin, xlt tmin tmax = true ->
+  forall i0, NoDup i0 -> incl i0 (gnodes g) ->
+  forall full fuel ds out tr,
+    exec (fast_SIS g tau gamma tmax (Some i0) None tmin full fuel) ds [] = (Ok out, tr) ->
+    exists (cs : list EventSISRel.clk) (s' : mst),
+      tr = map (fun c => fst (EventSISRel.clk_call g tau gamma c)) cs /\
+      map (fun c => snd (EventSISRel.clk_call g tau gamma c)) cs = firstn (length cs) ds /\
+      out = finish g tmin full (length i0) (ms_log s') /\
+      EventSISClock.clock_ok g gamma (l_elog (ms_log s')) cs /\
+      EventSISClock.ml_via g tau gamma tmax (EventSISClock.CI g tau gamma tmax tmin i0) [] (m_init g tmax tmin i0) s' cs.
+Proof. exact EventSISClock.fsis_clock_structure_run. Qed.
+Print Assumptions fsis_clock_structure.
+
+(* (2) spelled out: what [clock_ok] says about the record at any position *)
+Theorem fsis_clock_record_justified :
+  forall g gamma elog cs, EventSISClock.clock_ok g gamma elog cs ->
+  forall pre c post, cs = pre ++ c :: post ->
+    match c with
+    | EventSISRel.KRec v s d => In (s, v, stI) elog
+    | EventSISRel.KAtt u v k start d false =>
+        In v (gadj g u) /\
+        (In (start, u, stI) elog \/
+         exists k' start' d' rd', In (EventSISRel.KAtt u v k' start' d' rd') pre /\ start = tadd start' d')
+    | EventSISRel.KAtt u v k start d true =>
+        In v (gadj g u) /\
+        (exists pre' start' d' sv dv, pre = pre' ++ [EventSISRel.KAtt u v k start' d' false] /\ tadd start' d' < start /\
+          In (EventSISRel.KRec v sv dv) pre /\ start = tadd sv dv /\ sv <= tadd start' d') /\
+        ((exists su du, In (EventSISRel.KRec u su du) pre /\ start < tadd su du) \/ rec_rate g gamma u == 0)
+    end.
+Proof. exact (fun g gamma elog cs H => H). Qed.
+Print Assumptions fsis_clock_record_justified.
+
+(* (3) spelled out *)
+Theorem fsis_no_clock_missing :
+  forall g tau gamma tmax tmin i0 acc s, EventSISClock.CI g tau gamma tmax tmin i0 acc s ->
+  (forall t c u v, In (t, c, MTrans (Some u) v) (q_items (ms_q s)) ->
+     exists k start d rd, In (EventSISRel.KAtt u v k start d rd) acc /\ t = tadd start d) /\
+  (forall u v, ms_stat s u = stI -> In v (gadj g u) -> 0 < trans_rate g tau u v ->
+     (exists t c, In (t, c, MTrans (Some u) v) (q_items (ms_q s))) \/
+     (exists start d rd, In (EventSISRel.KAtt u v (EventSISRel.per s u) start d rd) acc /\
+        (xtlt (Some (tadd start d)) (ms_rec s u) = false \/ xlt (tadd start d) tmax = false)) \/
+     xtlt (ms_rec s v) (ms_rec s u) = false).
+Proof. exact EventSISClock.CI_read. Qed.
+Print Assumptions fsis_no_clock_missing.
+
+Theorem fsis_enabled_pair_has_a_clock :
+  forall g tau gamma tmax tmin i0 acc s, EventSISClock.CI g tau gamma tmax tmin i0 acc s ->
+  forall u v, ms_stat s u = stI -> ms_stat s v = stS -> In v (gadj g u) -> 0 < trans_rate g tau u v ->
+    EventSISClock.Pend s u v \/ EventSISClock.Dead tmax acc s u v \/
+    exists ru rv, ms_rec s u = Some ru /\ ms_rec s v = Some rv /\ ru <= rv /\
+                  Forall (fun x => rv <= qtime x) (q_items (ms_q s)).
+Proof. exact EventSISClock.CI_enabled_pair. Qed.
+Print Assumptions fsis_enabled_pair_has_a_clock.
 
 (* Law: that a path built from these clocks (one exponential clock per I-S pair,
    restarted at the end of the target's infectious period, one exponential
    duration per infection) is distributed as the continuous-time SIS Markov
    chain is the memorylessness of the exponential distribution (Kiss, Miller,
-   Simon, App. A) and is CITED, not formalised.  The part carried by Coq is the
-   conjunction below: valid generator path + generator rates on every script. *)
+   Simon, App. A) and is CITED, not formalised.  The part carried by Coq is
+   [fsis_clock_structure] above (the exact shape on which that argument rests)
+   and the conjunction below: valid generator path + generator rates on every script. *)
 Theorem fsis_law_partial :
   forall g tau gamma tmax i0 rho tmin full fuel ds out tr,
     exec (fast_SIS g tau gamma tmax i0 rho tmin full fuel) ds [] = (out, tr) ->
@@ -92,3 +166,21 @@ Proof.
   - vm_compute in E. discriminate E.
 Qed.
 Print Assumptions fsis_nonvacuous.
+
+(* the clock theorem applies to a run with 20 calls (two re-infections, three redraws):
+   it has 20 records, the first is the duration of node 0 drawn at tmin *)
+Example fsis_clock_structure_nonvacuous :
+  exists out tr cs, exec (fast_SIS EventSISEx.gp 2 1 (Some 2) (Some [0%N]) None 0 true 100) EventSISEx.script3 [] = (Ok out, tr) /\
+    length cs = 20%nat /\ tr = map (fun c => fst (EventSISRel.clk_call EventSISEx.gp 2 1 c)) cs /\
+    map (fun c => snd (EventSISRel.clk_call EventSISEx.gp 2 1 c)) cs = EventSISEx.script3.
+Proof.
+  destruct (exec (fast_SIS EventSISEx.gp 2 1 (Some 2) (Some [0%N]) None 0 true 100) EventSISEx.script3 []) as [[out|e] tr] eqn:E;
+    [|vm_compute in E; discriminate E].
+  destruct (fsis_clock_structure EventSISEx.gp EventSISEx.gp_nodup EventSISEx.gp_adj 2 1 (Some 2) 0 eq_refl [0%N]
+              (proj1 EventSISEx.i0_ok) (proj2 EventSISEx.i0_ok) true 100 EventSISEx.script3 out tr E) as [cs [s' [H1 [H2 _]]]].
+  assert (Hl : length tr = 20%nat) by (vm_compute in E; injection E as _ <-; reflexivity).
+  assert (Hc : length cs = 20%nat) by (rewrite H1, map_length in Hl; exact Hl).
+  exists out, tr, cs. split; [reflexivity|]. split; [exact Hc|]. split; [exact H1|].
+  rewrite H2, Hc. reflexivity.
+Qed.
+Print Assumptions fsis_clock_structure_nonvacuous.
